@@ -406,6 +406,10 @@ def text_shortcuts(prog, rep, entry, parser, rule="R14.4"):
                 continue
             if P.abandoned(p):
                 continue  # a parser was asked and declined
+            # (the way out for what is no text at all: `if not istexttype(val.__class__): return val`)
+            nontext = any((not pol) and (T.is_call_to(a, f"{C.INSP}.istexttype") or (T.is_call_to(a, "builtins.isinstance") and a[2][:1] == (val,))) for a, pol in T.derive_atoms(p.guards()))
+            if nontext:
+                continue
             textual = [(g, pol) for g, pol in p.guards() if T.contains(g, lambda x: x in (val, dec))]
             if not textual:
                 rep.violated(rule, fn.qualname, fn.loc, "a path returns the text unparsed without asking a parser and without looking at the text", detail=f"shortcut-path{i}")
@@ -426,6 +430,26 @@ def text_shortcuts(prog, rep, entry, parser, rule="R14.4"):
             rep.check(not taken, rule, fn.qualname, fn.loc, f"the unparsed-text shortcut [{gs}] is closed to all {len(PARSEABLE_WITNESSES)} parseable witnesses", f"text that JSON / literal_eval reads is handed back unparsed under [{gs}]: {taken[:6]} come back as str (an Enum member with value -10 is not found from its text '-10')", detail=f"shortcut-path{i}")
     if not n:
         rep.held(rule, entry.qualname, entry.loc, "no path returns the text without a parser having declined it", detail="no-shortcut", nontrivial=False)
+
+
+def long_integers_exact(prog, rep, rule="R14.4"):
+    """The default JSON backend (orjson, when installed) reads an integer outside the 64-bit range as a *float* instead of
+    refusing it, so the exact literal parser behind it is never asked.  Where typelib.py.compat may bind `json` to orjson, the
+    function that parses text routes some texts (the ones with long numerals) to the standard library's exact decoder."""
+    import ast as _ast
+
+    compat = prog.modules.get("typelib.py.compat")
+    fast = compat is not None and any(isinstance(n, _ast.Import) and any(a.name == "orjson" for a in n.names) for n in _ast.walk(compat.tree))
+    _entry, f, _ = parse_function(prog)
+    if not fast:
+        rep.held(rule, f.qualname, f.loc, "the JSON backend is the standard library's", detail="long-integers-exact", nontrivial=False)
+        return
+    val = ("param", f.params[0])
+    exact = False
+    for p, r in P.returns(P.paths_of(prog, f)):
+        if r[0] == "call" and T.refname(r[1]) == "json.loads" and r[2][:1] == (val,) and any(T.contains(g, lambda x: x == val) for g, _ in p.guards()):
+            exact = True
+    rep.check(exact, rule, f.qualname, f.loc, "texts with long numerals are read by the standard (exact) JSON decoder", "every text is read by compat.json, which is orjson when installed: an integer beyond 64 bits comes back as a float -- unmarshal(list[int], '[1180591620717411303425]') silently returns [1180591620717411303424], an Enum member with the value 2**70 + 1 is not found from its text, a UUID is not read back from str(u.int)", detail="long-integers-exact")
 
 
 def r14_4(prog, rep):
@@ -454,6 +478,15 @@ def r14_4(prog, rep):
             final = True
             sup1, sup2 = suppressed[0], suppressed[1]
     text_shortcuts(prog, rep, entry, f)
+    long_integers_exact(prog, rep)
+    # the public entry returns what is no text untouched (as load() does), and hands the parsers an exact str (the JSON
+    # decoder reads nothing else; an unparsed text is remembered as the object it is)
+    ev0 = ("param", entry.params[0])
+    eps = P.paths_of(prog, entry)
+    untouched = any(p.exit[0] == "return" and p.exit[1] == ev0 and any((not pol) and (T.is_call_to(a, f"{C.INSP}.istexttype") or T.is_call_to(a, "builtins.isinstance")) for a, pol in T.derive_atoms(p.guards())) for p in eps)
+    rep.check(untouched, "R14.4", entry.qualname, entry.loc, "what is no text is returned untouched by the entry itself", "strload() hands whatever it is given to the memoised parser: strload([1, 2]) raises TypeError (unhashable), strload(True) is answered 1.0 after strload(1.0) -- load() returns the same inputs untouched", detail="entry-nontext")
+    exact = any(T.contains(tm, lambda x: (x[0] == "cmp" and x[1] in ("is", "isnot") and ("ref", "builtins.str") in x[2:4]) or T.is_call_to(x, "builtins.str.__str__")) for p in eps for tm in p.all_terms())
+    rep.check(exact, "R14.4", entry.qualname, entry.loc, "the text handed to the parsers is an exact str", "an instance of a str subclass is handed to the parsers as it is: the JSON decoder reads exact str only and reports anything else as 'not JSON' (load(Text('{\"a\": null}')) returns the text; unmarshal(list[bool], Text('[true, false]')) gives one True per character), and unparsed text is remembered as that very object for every equal text", detail="entry-exact-str")
     rep.check(json_first, "R14.4", f.qualname, f.loc, "JSON is tried first on the input", "the JSON decoder is not the first attempt", detail="json-first")
     rep.check(lit_second, "R14.4", f.qualname, f.loc, "literal_eval is tried second, on the decoded text", "literal_eval is not the second attempt or does not receive decode(val)", detail="literal-second")
     rep.check(final, "R14.4", f.qualname, f.loc, "otherwise the decoded text is returned", "the fall-through does not return decode(val)", detail="fallback")
